@@ -318,7 +318,11 @@ func raceC17(seed int64, workers, rounds int) raceReport {
 func raceMain(which string, seed int64, workers, rounds int, outDir string) {
 	var rep raceReport
 	if which == "c17" {
+		first := firstTouch() // before anything else in this process has asked the registry anything
 		rep = raceC17(seed, workers, rounds)
+		if first != "" {
+			rep.Mismatches = append(rep.Mismatches, first)
+		}
 	} else {
 		rep = raceC16(seed, workers, rounds)
 	}
